@@ -103,6 +103,8 @@ func c09NewEnv(c *ctx) *c09Env {
 	return e
 }
 
+var c09gaps = []time.Duration{0, 7 * time.Second, 0, 40 * time.Second, 0, 3 * time.Hour, time.Millisecond}
+
 func evsString(evs []c09Ev) string {
 	if len(evs) == 0 {
 		return "-"
@@ -211,6 +213,13 @@ func (e *c09Env) runConn(in c09Input, pos []int, end string, evs []c09Ev, trickl
 			open := len(d.dials) > 0
 			check("first-packet")
 			for i, ev := range evs {
+				// time passes between the events of a relayed connection (seconds to hours, virtual): the relay has no clock
+				// of its own, so neither side's later bytes may be lost (round-7 seed C09-6: a write deadline left on the
+				// target connection ended the relay for a peer that spoke 5 s after the dial)
+				if gap := c09gaps[(i+len(stream))%len(c09gaps)]; gap > 0 {
+					time.Sleep(gap)
+					synctest.Wait()
+				}
 				switch ev.kind {
 				case "p":
 					peer.feed(ev.data)
